@@ -129,10 +129,7 @@ func (h *NFSProcedureHandler) handleMountCall(call *RPCCall, body io.Reader, rep
 		// Each entry: ex_dir (string), ex_groups (list)
 		// We export "/" to all
 		var buf bytes.Buffer
-		xdrEncodeUint32(&buf, 1)   // Has entry (1 = true)
-		xdrEncodeString(&buf, "/") // Export path
-		xdrEncodeUint32(&buf, 0)   // No group restrictions (null pointer)
-		xdrEncodeUint32(&buf, 0)   // End of list
+		encodeExportList(&buf)
 		reply.Data = buf.Bytes()
 		return reply, nil
 
@@ -140,4 +137,12 @@ func (h *NFSProcedureHandler) handleMountCall(call *RPCCall, body io.Reader, rep
 		reply.AcceptStatus = PROC_UNAVAIL
 		return reply, nil
 	}
+}
+
+// encodeExportList writes the result of the EXPORT procedure: the single export "/"
+func encodeExportList(buf *bytes.Buffer) {
+	xdrEncodeUint32(buf, 1)   // Has entry (1 = true)
+	xdrEncodeString(buf, "/") // Export path
+	xdrEncodeUint32(buf, 0)   // No group restrictions (null pointer)
+	xdrEncodeUint32(buf, 0)   // End of list
 }
